@@ -816,3 +816,12 @@ v("c02-leaf-shortcut-for-native-types", "C02", "LEAF-COERCED", E + "executor.py"
   "        if type(result) is str and return_type.name == \"String\":\n            return result\n        coerced = return_type.coerce_output_value(result)\n        if coerced is Undefined or coerced is None:\n")
 v("c02-unknown-input-field-by-count", "C02", "SIBLING-ATOMS", U + "coerce_input_value.py",
   "            if field_name not in fields:\n                return Undefined  # Invalid: intentionally return no value.\n", "")
+
+# -- round 5: C07 ------------------------------------------------------------------------------------------
+v("c07-root-field-looked-up-by-response-key", "C07", "FIELD-LOOKUP-NAME", E + "execute.py",
+  "    field_def = schema.get_field(root_type, field_name)\n", "    field_def = schema.get_field(root_type, response_name)\n")
+v("c07-stream-decided-by-iterator-class", "C07", "STREAM-PREDICATE", E + "execute.py",
+  "        if executor.is_async_iterable(result_or_stream)\n        else result_or_stream\n", "        if hasattr(result_or_stream, \"__anext__\")\n        else result_or_stream\n")
+v("c07-exception-payload-raised", "C07", "PER-EVENT-PURE", E + "execute.py",
+  "    return cast(\"AwaitableOrValue[ExecutionResult]\", executor.execute_operation(False))\n",
+  "    if isinstance(executor.root_value, Exception):\n        raise executor.root_value\n    return cast(\"AwaitableOrValue[ExecutionResult]\", executor.execute_operation(False))\n")
